@@ -519,8 +519,20 @@ NP_FUNCS = {
     'numpy.matmul': lambda a, b: np.matmul(np.asarray(a, dtype=object), np.asarray(b, dtype=object)), 'numpy.tensordot': lambda a, b, axes=2: np.tensordot(np.asarray(a, dtype=object), np.asarray(b, dtype=object), axes=axes),
     'numpy.linalg.multi_dot': lambda xs: __import__('functools').reduce(np.dot, [np.asarray(x, dtype=object) for x in xs]),
     'numpy.minimum': lambda a, b: _ew2(sp.Min, a, b), 'numpy.maximum': lambda a, b: _ew2(sp.Max, a, b),
-    'numpy.clip': lambda x, lo, hi: vmap(lambda e: sp.Max(lo, sp.Min(hi, e)), x),
+    'numpy.clip': lambda x, lo, hi, out=None, **k: _clip(x, lo, hi, out),
     'numpy.logical_and': lambda a, b: _band(a, b), 'numpy.logical_or': lambda a, b: _bor(a, b),
+    'numpy.less': lambda a, b: _cmp2(lambda x, y: x < y, a, b), 'numpy.less_equal': lambda a, b: _cmp2(lambda x, y: x <= y, a, b),
+    'numpy.greater': lambda a, b: _cmp2(lambda x, y: x > y, a, b), 'numpy.greater_equal': lambda a, b: _cmp2(lambda x, y: x >= y, a, b),
+    'numpy.equal': lambda a, b: _cmp2(lambda x, y: sp.Eq(x, y), a, b), 'numpy.not_equal': lambda a, b: _cmp2(lambda x, y: sp.Ne(x, y), a, b),
+    'numpy.indices': lambda dims, dtype=None, **k: np.array(np.indices(tuple(int(d) for d in dims)), dtype=object),
+    'numpy.subtract': lambda a, b, out=None, **k: _ufunc_out(np.asarray(a, dtype=object) - np.asarray(b, dtype=object), out),
+    'numpy.add': lambda a, b, out=None, **k: _ufunc_out(np.asarray(a, dtype=object) + np.asarray(b, dtype=object), out),
+    'numpy.multiply': lambda a, b, out=None, **k: _ufunc_out(np.asarray(a, dtype=object) * np.asarray(b, dtype=object), out),
+    'numpy.divide': lambda a, b, out=None, **k: _ufunc_out(np.asarray(a, dtype=object) / np.asarray(b, dtype=object), out),
+    'numpy.true_divide': lambda a, b, out=None, **k: _ufunc_out(np.asarray(a, dtype=object) / np.asarray(b, dtype=object), out),
+    'numpy.power': lambda a, b, **k: np.asarray(a, dtype=object) ** b,
+    'numpy.zeros_like': lambda x, *a, **k: _zeros(np.shape(x)), 'numpy.ones_like': lambda x, *a, **k: _ones(np.shape(x)),
+    'numpy.full_like': lambda x, v, **k: _fill(np.shape(x), v),
     'numpy.real': lambda x: vmap(sp.re, x), 'numpy.imag': lambda x: vmap(sp.im, x),
     'copy.deepcopy': lambda x: _copy(x), 'copy.copy': lambda x: _copy(x),
 }
@@ -606,6 +618,39 @@ def _rint(x):
             return sp.Integer(round(float(v)))
         return sp.floor(v + sp.Rational(1, 2))   # symbolic: nearest integer up to the tie rule
     return vmap(one, x)
+
+
+def _ufunc_out(r, out):
+    if out is None:
+        return r if np.ndim(r) else r[()]
+    if not is_arr(out):
+        raise ModelError('TypeError', 'return arrays must be of ArrayType')
+    out[...] = r
+    return out
+
+
+def _cmp2(f, a, b):
+    """elementwise comparison (numpy.less etc.): decided entries become Python bools, undecided ones stay relational"""
+    def one(x, y):
+        r = f(sp.sympify(x), sp.sympify(y))
+        return bool(r) if r in (sp.true, sp.false) else r
+    if is_arr(a) or is_arr(b) or isinstance(a, (list, tuple)) or isinstance(b, (list, tuple)):
+        A, B = np.broadcast_arrays(np.asarray(a, dtype=object), np.asarray(b, dtype=object))
+        out = np.empty(A.shape, dtype=object)
+        for i in np.ndindex(A.shape):
+            out[i] = one(A[i], B[i])
+        return out
+    return one(a, b)
+
+
+def _clip(x, lo, hi, out=None):
+    r = vmap(lambda e: sp.Max(lo, sp.Min(hi, e)), x)
+    if out is not None:
+        if not is_arr(out):
+            raise ModelError('TypeError', 'return arrays must be of ArrayType')
+        out[...] = r
+        return out
+    return r
 
 
 def _ew2(f, a, b):
@@ -1010,6 +1055,13 @@ class SymEval:
             if r is None:
                 raise Opaque('identity ' + norm(n))
             return r if isinstance(op, ast.Is) else not r
+        if (isinstance(a, PyStub) or isinstance(b, PyStub)) and isinstance(op, (ast.Lt, ast.Gt, ast.LtE, ast.GtE)):
+            import operator as _op
+            f = {ast.Lt: _op.lt, ast.Gt: _op.gt, ast.LtE: _op.le, ast.GtE: _op.ge}[type(op)]
+            try:
+                return f(a, b)          # model objects define their own ordering comparisons (columns, frames)
+            except TypeError as e:
+                raise Opaque('comparison of model objects %s: %s' % (norm(n), e))
         if isinstance(a, (tuple, list)) and isinstance(b, (tuple, list)):
             r = tuple(a) == tuple(b)
             return r if isinstance(op, ast.Eq) else (not r if isinstance(op, ast.NotEq) else False)
